@@ -1,14 +1,32 @@
 #!/usr/bin/env python3
-"""prints the markdown table of seeded changes and which check catches them (from seeded/*/meta.json)"""
-import json, glob, os
+"""Regenerates the seeded-change table (DESIGN.md section 9.5, between the seeds:begin/end markers) from
+seeded/*/meta.json.  With --print only prints it."""
+import json, glob, os, sys
 rows = []
+caught = missed = 0
 for d in sorted(glob.glob('/verif/seeded/*/')):
     m = json.load(open(os.path.join(d, 'meta.json')))
     cr = m.get('check_result', {})
     viol = cr.get('violations', [])
     hs = sorted({v.split('/')[-1].rsplit('-', 1)[0] for v in viol})
-    what = m.get('what', '').split('. ')[0][:150].replace('|', '/')
-    rows.append('| %s | %s | %s | %s |' % (os.path.basename(d.rstrip('/')), what, 'caught' if cr.get('caught') else 'missed', ', '.join(hs) or '-'))
-print('| seed | change | quick check | harnesses reporting it |')
-print('|---|---|---|---|')
-print('\n'.join(rows))
+    what = m.get('what', '').split('. ')[0][:230].replace('|', '/').replace('\n', ' ')
+    ok = bool(cr.get('caught'))
+    caught += ok
+    missed += (not ok)
+    why = m.get('missed_reason', '')
+    rows.append('| %s | %s | %s | %s |' % (os.path.basename(d.rstrip('/')), what, 'caught' if ok else 'missed',
+                                         ', '.join(hs) or (why or '-')))
+out = ['%d seeded changes: %d reported by the quick check of their property (each with a natively replayed '
+       'counterexample), %d missed.' % (caught + missed, caught, missed), '',
+       '| seed | change (first sentence of meta.json `what`) | quick check | harnesses reporting it / why missed |',
+       '|---|---|---|---|'] + rows
+txt = '\n'.join(out)
+if '--print' in sys.argv:
+    print(txt)
+else:
+    p = '/verif/DESIGN.md'
+    s = open(p).read()
+    a = s.index('<!-- seeds:begin -->') + len('<!-- seeds:begin -->')
+    b = s.index('<!-- seeds:end -->')
+    open(p, 'w').write(s[:a] + '\n' + txt + '\n' + s[b:])
+    print('DESIGN.md 9.5 updated: %d caught, %d missed' % (caught, missed))
